@@ -901,3 +901,39 @@ def r_purequery(repo, tier):
     if n < 12:
         raise AnalysisError("R-PUREQUERY: only %d query methods found" % n)
     return out
+
+
+# =========================================================================================== record sizes of PE / Mach-O
+def r_structsize(repo, tier):
+    from ..structmodel import collect_structs, layout, StructM
+
+    out = RuleOut(
+        "R-STRUCTSIZE",
+        "the size that vstat's C-layout model computes for each PE/COFF and Mach-O record definition (natural alignment unless the "
+        "definition says packed=True, exactly what StructCore.size does) equals the size the format fixes for that record "
+        "(ref/struct_sizes.json): tables of such records are walked with len(record), so a padded or mis-declared record shifts "
+        "every following entry",
+    )
+    ref = _ref("struct_sizes.json")
+    n = 0
+    for rel, table in sorted(ref.items()):
+        if rel == "comment":
+            continue
+        structs = collect_structs(repo, rel)
+        for cname, want in sorted(table.items()):
+            sm = structs.get(cname)
+            if not isinstance(sm, StructM):
+                out.undecide(rel, cname, "definition", "structure definition not found / not parsed")
+                continue
+            lay = layout(sm, structs, psize=4)
+            n += 1
+            got = lay["size"] if isinstance(lay, dict) else None
+            out.inst("%s::%s" % (rel, cname), {"record": cname, "computed_size": got, "format_size": want, "packed": bool(sm.packed)})
+            if got is None:
+                out.undecide(rel, cname, "size", "variable-length field")
+            elif got != want:
+                out.report(rel, cname, "size %d" % got, sm.cls.node.lineno, "%s is %d bytes as defined (%s), the format's record is %d bytes: a table of these records is walked with the wrong stride" % (cname, got, "packed" if sm.packed else "naturally aligned, tail padding included", want))
+    out.stats["records"] = n
+    if n < 50:
+        raise AnalysisError("R-STRUCTSIZE: only %d record definitions found" % n)
+    return out
